@@ -246,6 +246,13 @@ package dagcbor
 //@ func Unmarshal(na, tokSrc, options) (err)
 //@   requires na != nil && tokSrc != nil && tokSrc.strict && options.AllocationBudget <= 4611686018427387904 && 0 <= options.AllocationBudget
 
+// The registered decoder: the strict decoder (links allowed, nothing relaxed, default budgets) on the
+// very assembler and reader it was given (a wrapper around the reader would hide what follows the item
+// from the trailing-byte probe).
+//@ func Decode(na, r) (err)
+//@   requires na != nil && r != nil && r.teesink == nil
+//@   before Decode assert[C03,C06] carg0.AllowLinks && !carg0.RelaxedDecode && !carg0.DontParseBeyondEnd && carg0.AllocationBudget == 0 && carg0.MaxDepth == 0 && carg1 == na && carg2 == r
+
 //@ func (DecodeOptions).Decode(na, r) (err)
 //@   requires na != nil && r != nil && r.teesink == nil && cfg.AllocationBudget <= 4611686018427387904 && 0 <= cfg.AllocationBudget
 //@   ensures[C03,C06] err == nil && !cfg.DontParseBeyondEnd && !ok ==> r.pos == io.blen(r.data)
